@@ -508,6 +508,7 @@ func (self *AofFile) WriteLockData(lock *AofLock) error {
 }
 
 func (self *AofFile) Flush() error {
+	verifPoint("aof.flush.enter", self, nil)
 	if self.file != nil && self.windex > 0 {
 		for tn := 0; tn < self.windex; {
 			n, err := self.file.Write(self.wbuf[tn:self.windex])
@@ -525,6 +526,7 @@ func (self *AofFile) Flush() error {
 		self.windex = 0
 		self.dirtied = true
 	}
+	verifPoint("aof.flush.mid", self, nil)
 
 	if self.dataFile != nil && self.dwindex > 0 {
 		for tn := 0; tn < self.dwindex; {
@@ -1918,6 +1920,7 @@ func (self *Aof) RewriteAofFile(startReWrite bool) error {
 		}
 		self.aofFile = nil
 	}
+	verifPoint("aof.fs", self, "rotate:closed")
 
 	aofFileIndex := self.aofFileIndex + 1
 	if aofFileIndex == 0 {
@@ -1933,6 +1936,7 @@ func (self *Aof) RewriteAofFile(startReWrite bool) error {
 	self.aofFileIndex = aofFileIndex
 	self.aofFileOffset = 0
 	self.slock.Log().Infof("Aof create current file %s.%d", "append.aof", aofFileIndex)
+	verifPoint("aof.fs", self, "rotate:opened")
 
 	if startReWrite {
 		go self.rewriteAofFiles()
@@ -1989,6 +1993,7 @@ func (self *Aof) rewriteAofFiles() {
 		return
 	}
 
+	verifPoint("aof.fs", self, "tmp-written")
 	self.clearRewriteAofFiles(aofFilenames)
 	totalAofSize := len(aofFilenames)*12 - len(aofFiles)*12
 	for _, aofFile := range aofFiles {
@@ -2095,17 +2100,21 @@ func (self *Aof) clearRewriteAofFiles(aofFilenames []string) {
 			self.slock.Log().Errorf("Aof rewrite remove file error %s %v", aofFilename, err)
 			continue
 		}
+		verifPoint("aof.fs", self, "removed:"+aofFilename)
 		_ = os.Remove(filepath.Join(self.dataDir, fmt.Sprintf("%s.%s", aofFilename, "dat")))
+		verifPoint("aof.fs", self, "removed:"+aofFilename+".dat")
 		self.slock.Log().Infof("Aof rewrite remove file %s", aofFilename)
 	}
 	err := os.Rename(filepath.Join(self.dataDir, "rewrite.aof.tmp"), filepath.Join(self.dataDir, "rewrite.aof"))
 	if err != nil {
 		self.slock.Log().Errorf("Aof rewrite rename rewrite.aof.tmp to rewrite.aof error %v", err)
 	}
+	verifPoint("aof.fs", self, "renamed:rewrite.aof")
 	err = os.Rename(filepath.Join(self.dataDir, "rewrite.aof.tmp.dat"), filepath.Join(self.dataDir, "rewrite.aof.dat"))
 	if err != nil {
 		self.slock.Log().Errorf("Aof rewrite rename rewrite.aof.tmp.dat to rewrite.aof.dat error %v", err)
 	}
+	verifPoint("aof.fs", self, "renamed:rewrite.aof.dat")
 }
 
 func (self *Aof) clearAofFiles() error {
